@@ -18,6 +18,9 @@ func init() {
 	cmds["c13"] = func(a []string) { runTxGraph("C13", a) }
 }
 
+// c01LeasePart is installed by c01lease.go (needs the clock hook, tag verif).
+var c01LeasePart func(run *ev.Run) (states, transitions, evals int)
+
 type txReplay struct {
 	Kind     string           `json:"kind"`
 	Universe *ledger.Universe `json:"universe"`
@@ -72,9 +75,30 @@ func runTxGraph(prop string, args []string) {
 		}
 	}
 	total := exploreAll(run, us, cfg)
+	walletExecs := 0
+	if prop == "C02" {
+		d := 3
+		if run.Thorough() {
+			d = 4
+		}
+		we, wv, wn := c02Wallet(run, d)
+		walletExecs = we
+		total.Transitions += we
+		total.Evaluations += wv
+		total.NontrivialSt += wn
+		total.DirectBuilt += we
+	}
+	leaseStates, leaseTrans := 0, 0
+	if prop == "C01" && c01LeasePart != nil {
+		ls, lt, le := c01LeasePart(run)
+		leaseStates, leaseTrans = ls, lt
+		total.States += ls
+		total.Transitions += lt
+		total.Evaluations += le
+	}
 	rule := map[string]string{
 		"C01": "states = distinct canonical dumps of the wtxmgr namespace reached by BFS to fixpoint per universe; non-trivial = distinct states entered (and changed) by a disconnect, an abandon or a confirmation that removed a conflicting unconfirmed tx",
-		"C02": "states grouped by final facts (confirmed txs per block in order + unconfirmed set); every group compared observationally and against the direct construction; non-trivial as C01",
+		"C02": "states grouped by final facts (confirmed txs per block in order + unconfirmed set); every group compared observationally and against the direct construction; non-trivial as C01. Wallet-level part: every sequence of up to 3 (thorough 4) steps {extend, extend paying the wallet, extend spending a wallet output, extend re-confirming reorged txs, disconnect} on the real wallet vs a second wallet of the same seed fed the final best chain directly",
 		"C13": "every state: TxDetails/UniqueTxDetails for all txs x all blocks, RangeTransactions for all (begin,end), PreviousPkScripts; non-trivial as C01",
 	}[prop]
 	cov := ev.Coverage{
@@ -93,6 +117,9 @@ func runTxGraph(prop string, args []string) {
 		"disconnect_transitions":          total.DiscTrans,
 		"conflict_removing_confirmations": total.ConflictTrans,
 		"max_depth":                       total.MaxDepth,
+		"wallet_level_executions":         walletExecs,
+		"states_with_lease_table":         leaseStates,
+		"transitions_with_lease_table":    leaseTrans,
 		"bounds":                          fmt.Sprintf("heights 1..%d, %d block ids per height, coinbase maturity %d, BFS to fixpoint per universe", cfg.MaxH, cfg.NIDs, txgraph.Maturity),
 		"exhaustive":                      total.done == len(us) && !total.Capped,
 		"samples":                         total.samples,
